@@ -145,6 +145,14 @@ func cmdScan(args []string) {
 				out.Emit(map[string]interface{}{"kind": "hang_suspect", "case": c.label, "secs": *hangSecs})
 				out.Flush()
 			}
+			// a Check that is still running after three times the budget will not come back: give the
+			// rest of the shard a chance (a goroutine cannot be cancelled, so the process ends; the driver
+			// re-runs the remaining packages and, separately, the suspect alone with a ten times larger budget)
+			if c.label != "" && reported[c.label] && time.Since(c.since) > 3*time.Duration(*hangSecs)*time.Second && *hangSecs < 100 {
+				fmt.Fprintf(os.Stderr, "HANG-EXIT %s\n", c.label)
+				out.Flush()
+				os.Exit(5)
+			}
 		}
 	}()
 
